@@ -33,8 +33,10 @@ pub fn replay_file(case: &Case, v: &Violation, minimised_with: Option<usize>) ->
     J::obj(kv)
 }
 
-/// the cases a replay file asks to execute, in order, in one process: optional `prelude`
-/// (earlier runs of the same process, for history-dependent failures) and the failing case
+/// the cases a replay file asks to execute, in order, in one process: an optional prelude
+/// (earlier runs of the same worker process, for history-dependent failures) - written out as
+/// `prelude`, or named by run index as `prelude_ref` and regenerated from the seed - and the
+/// failing case itself
 pub fn cases_of_replay(j: &J) -> Result<Vec<Case>, String> {
     let mut v = Vec::new();
     if let Some(p) = j.get("prelude") {
@@ -42,8 +44,126 @@ pub fn cases_of_replay(j: &J) -> Result<Vec<Case>, String> {
             v.push(Case::from_j(c)?);
         }
     }
+    if let Some(r) = j.get("prelude_ref") {
+        let prop = r.req("property")?.as_str()?;
+        let seed = r.req("seed")?.as_u64()?;
+        let pass = Pass::parse(r.req("pass")?.as_str()?);
+        if let Some(J::Int(n)) = r.get("real_every") {
+            crate::REAL_EVERY.store(*n as u64, std::sync::atomic::Ordering::Relaxed);
+        }
+        for i in r.req("runs")?.as_arr()? {
+            v.push(crate::compose(prop, seed, i.as_i64()? as u64, pass));
+        }
+    }
     v.push(Case::from_j(j.req("case")?)?);
     Ok(v)
+}
+
+fn prelude_ref(prop: &str, seed: u64, pass: Pass, runs: &[u64]) -> J {
+    J::obj(vec![
+        ("property", J::s(prop)),
+        ("seed", J::s(seed.to_string())),
+        ("pass", J::s(pass.name())),
+        (
+            "real_every",
+            J::Int(crate::REAL_EVERY.load(std::sync::atomic::Ordering::Relaxed) as i64),
+        ),
+        ("runs", J::Arr(runs.iter().map(|r| J::Int(*r as i64)).collect())),
+    ])
+}
+
+/// A violation that does not reproduce from its case alone depends on what the worker ran
+/// before. Find a short prelude (suffix doubling, then chunk removal) after which it does
+/// reproduce in a fresh process, and write it out explicitly.
+fn find_prelude(
+    prop: &str,
+    seed: u64,
+    pass: Pass,
+    before: &[u64],
+    case: &J,
+    violation: &J,
+    out_path: &str,
+) -> bool {
+    let tmp = format!("{}.tmp", out_path);
+    let mut attempts = 0;
+    let mut try_runs = |runs: &[u64], attempts: &mut u32| -> bool {
+        *attempts += 1;
+        let f = J::obj(vec![
+            ("format", J::s("bpaf-sim-replay-1")),
+            ("property", J::s(prop)),
+            ("violation", violation.clone()),
+            ("prelude_ref", prelude_ref(prop, seed, pass, runs)),
+            ("case", case.clone()),
+        ]);
+        if std::fs::write(&tmp, f.pretty()).is_err() {
+            return false;
+        }
+        matches!(
+            run_sub(&["replay", &tmp], Duration::from_secs(HANG_SECS)),
+            Some((1, _))
+        )
+    };
+    let mut k = 1usize;
+    let mut found: Option<Vec<u64>> = None;
+    loop {
+        let start = before.len().saturating_sub(k);
+        if try_runs(&before[start..], &mut attempts) {
+            found = Some(before[start..].to_vec());
+            break;
+        }
+        if k >= before.len() {
+            break;
+        }
+        k *= 2;
+    }
+    let mut runs = match found {
+        Some(r) => r,
+        None => {
+            let _ = std::fs::remove_file(&tmp);
+            return false;
+        }
+    };
+    // drop chunks that are not needed
+    let mut chunk = (runs.len() / 2).max(1);
+    while attempts < 80 && runs.len() > 1 {
+        let mut progressed = false;
+        let mut at = 0;
+        while at < runs.len() && attempts < 80 && runs.len() > 1 {
+            let end = (at + chunk).min(runs.len());
+            let mut cand = runs.clone();
+            cand.drain(at..end);
+            if !cand.is_empty() && try_runs(&cand, &mut attempts) {
+                runs = cand;
+                progressed = true;
+            } else {
+                at = end;
+            }
+        }
+        if chunk == 1 && !progressed {
+            break;
+        }
+        chunk = (chunk / 2).max(1);
+    }
+    let _ = std::fs::remove_file(&tmp);
+    let explicit: Vec<J> = runs
+        .iter()
+        .map(|i| crate::compose(prop, seed, *i, pass).to_j())
+        .collect();
+    let f = J::obj(vec![
+        ("format", J::s("bpaf-sim-replay-1")),
+        ("property", J::s(prop)),
+        ("violation", violation.clone()),
+        (
+            "note",
+            J::s(format!(
+                "history-dependent: reproduces only after the prelude below (runs {:?} of the same worker process, seed {}); found with {} replays",
+                runs, seed, attempts
+            )),
+        ),
+        ("prelude", J::Arr(explicit)),
+        ("case", case.clone()),
+    ]);
+    std::fs::write(out_path, f.pretty()).is_ok()
 }
 
 #[derive(Clone, Debug)]
@@ -531,6 +651,29 @@ pub fn check(args: &[String]) -> i32 {
         } else {
             match run_sub(&["minimize", &v.path, &final_path], Duration::from_secs(240)) {
                 Some((0, _)) => path = final_path.clone(),
+                Some((3, _)) => {
+                    // fails in the worker, not alone: it depends on the worker's earlier runs
+                    let raw = std::fs::read_to_string(&v.path)
+                        .ok()
+                        .and_then(|t| json::parse(&t).ok());
+                    let before: Vec<u64> = (0..v.run).filter(|i| i % workers == v.run % workers).collect();
+                    let ok = match raw {
+                        Some(raw) => match (raw.get("case"), raw.get("violation")) {
+                            (Some(c), Some(viol)) => {
+                                find_prelude(&prop, seed, v.pass, &before, c, viol, &final_path)
+                            }
+                            _ => false,
+                        },
+                        None => false,
+                    };
+                    if ok {
+                        println!("note: violation {} depends on earlier runs of its worker; replay file carries the prelude", key);
+                        path = final_path.clone();
+                    } else {
+                        let _ = std::fs::copy(&v.path, &final_path);
+                        path = final_path.clone();
+                    }
+                }
                 other => {
                     println!("note: minimisation did not finish ({:?}), keeping the raw case", other.map(|o| o.0));
                     let _ = std::fs::copy(&v.path, &final_path);
@@ -561,24 +704,53 @@ pub fn check(args: &[String]) -> i32 {
             ));
         }
     }
-    for (pass, run) in det_mismatch.iter().take(3) {
-        // same seed, same operations, different outcome in another process layout: the outcome
-        // is not a function of definition, vector and environment
-        let case = gen_case(&prop, seed, *run, *pass);
-        let v = Violation {
-            rule: "T7".into(),
-            op_index: 0,
-            key: "rule=T7 cross-process".into(),
-            detail: "the same run produced different observable results when executed after a different history of earlier runs in the process (16-way forward layout vs single/3-way reverse layout)".into(),
-        };
-        let path = format!("{}/{}-{}-{}-{}-T7.json", replay_dir(), prop, seed, pass.name(), run);
-        let _ = std::fs::create_dir_all(replay_dir());
-        let _ = std::fs::write(&path, replay_file(&case, &v, None).pretty());
-        if known.iter().any(|k| k == &v.key) {
-            known_hits.insert(v.key.clone());
-        } else {
-            violation_lines.push(format!("VIOLATION property={} replay={}", prop, path));
-            exit = 1;
+    // same seed, same operations, different outcome in another process layout: the outcome is
+    // not a function of definition, vector and environment. Only reported when no in-process
+    // rule has already pinned the defect down with a self-contained replay file.
+    if exit == 0 {
+        for (pass, run) in det_mismatch.iter().take(1) {
+            let case = crate::compose(&prop, seed, *run, *pass);
+            let v = Violation {
+                rule: "T7x".into(),
+                op_index: 0,
+                key: "rule=T7x history-dependence".into(),
+                detail: "the same run observed different things when executed after a different history of earlier runs in its process".into(),
+            };
+            if known.iter().any(|k| k == &v.key) {
+                known_hits.insert(v.key.clone());
+                continue;
+            }
+            let rf = replay_file(&case, &v, None);
+            let path = format!("{}/{}-{}-{}-{}-T7x.json", replay_dir(), prop, seed, pass.name(), run);
+            let _ = std::fs::create_dir_all(replay_dir());
+            // which layout was polluted? main: same residue class, ascending; proof: descending
+            let main_before: Vec<u64> = (0..*run).filter(|i| i % workers == run % workers).collect();
+            let det_workers: u64 = if *pass == Pass::Faults { 1 } else { 3 };
+            let det_total = if *pass == Pass::Faults { t.determinism.min(t.faults) } else { t.determinism.min(t.clean) };
+            let mut det_before: Vec<u64> = (*run + 1..det_total).filter(|i| i % det_workers == run % det_workers).collect();
+            det_before.reverse();
+            let mut ok = false;
+            for before in [&main_before, &det_before] {
+                if let (Some(c), Some(viol)) = (rf.get("case"), rf.get("violation")) {
+                    if find_prelude(&prop, seed, *pass, before, c, viol, &path) {
+                        ok = true;
+                        break;
+                    }
+                }
+            }
+            if ok {
+                if let Some((1, text)) = run_sub(&["replay", &path], Duration::from_secs(HANG_SECS)) {
+                    println!("{}", text.trim_end());
+                }
+                violation_lines.push(format!("VIOLATION property={} replay={}", prop, path));
+                exit = 1;
+            } else {
+                harness_errors.push(format!(
+                    "run {} ({}) differs between process layouts but no prelude reproduces it",
+                    run,
+                    pass.name()
+                ));
+            }
         }
     }
     for k in &known_hits {
